@@ -10,4 +10,11 @@ CONF = {
   "assumptions": ["map iteration orders explored: all orders of maps with <=3 keys, rotations+reversal above (DESIGN 2.1)",
                   "snapshots are drawn from a fixed catalogue (DESIGN 5/C18)"],
  },
+ "C08": {
+  "level": "exploration",
+  "rule": "address-entry catalogue generated from a grammar (every CIDR /28../32 and every range of a 16-address IPv4 window crossing a /24, a window crossing a /16, IPv6 /124../128 window, wide CIDRs, spaces, inverted, IPv4-mapped, mixed-family, garbage): every single entry, every ordered pair (two pools / one pool), every triple of a 40-entry sub-catalogue, node internal IPs x pools, advertisement attachment product, aggregation length 0..32/0..128 per CIDR pool, local-pref conflict product; each through real config.For and judged by refcidr (128-bit interval sets); distinct_nontrivial counts distinct resource sets",
+  "parts": [{"name": "main", "pkg": "internal/config", "test": "TestVerif_C08", "shards": {"quick": 16, "thorough": 16}}],
+  "assumptions": ["inputs are drawn from the notation catalogue (DESIGN 5/C08); over-rejection by config.For is not a violation (the statement constrains accepted configurations)",
+                  "local-pref conflicts judged on names as written"],
+ },
 }
